@@ -86,14 +86,15 @@ def parked_schedules(ctx, r, big=0):
                 if not pk.parked:
                     pk.wait(5); pk = None
                     continue
-                holding = any(s["call"] == "flock" and "LOCK_EX" in s.get("flags", []) and s["ret"] == "0" for s in steps[:k]) and not any(s["call"] == "flock" and "LOCK_UN" in s.get("flags", []) for s in steps[:k])
+                holding = sched.holds_lock(pk.steps_at_park)      # from A's own trace: see sched.Parked
+                at = strace.summarize(pk.steps_at_park)[-1:]
                 rb = c.exec(["--json", "--agent", "B", "claim"] + eargs, timeout=10)
-                step = {"schedule": "A parked after call %d (%s); B runs; A resumes" % (k, prog[:k][-1:]), "epic": epic}
-                ctx.count(1, key=("parked", k, holding, bool(ready), bool(epic)))
+                step = {"schedule": "A parked after its call %d (%s); B runs; A resumes" % (len(pk.steps_at_park), at), "epic": epic}
+                ctx.count(1, key=("parked", (at or ["-"])[0], holding, bool(ready), bool(epic)))
                 if rb.get("timeout"):
                     ctx.violation("C01 claim blocks waiting for the lock", "B did not return within 10 s while A held the lock", {"trace": trace + [step]}); return
                 if holding and not (rb["exit"] == 1 and "lock busy" in rb["stderr"]):
-                    ctx.violation("C01 second claimer not refused while the lock is held", "A parked after call %d holding the lock; B: exit %s %s %s" % (k, rb["exit"], rb["stdout"].strip()[:80], rb["stderr"].strip()[:80]),
+                    ctx.violation("C01 second claimer not refused while the lock is held", "A parked after %s holding the lock; B: exit %s %s %s" % (at, rb["exit"], rb["stdout"].strip()[:80], rb["stderr"].strip()[:80]),
                                   {"trace": trace + [step]}); return
                 ra = pk.resume(); pk = None
                 if audit_log(ctx, c, pre_bytes, [ra, rb], ["A", "B"], epic, trace + [step]):
